@@ -7,6 +7,7 @@ CONSTANTS
   LP = 2
   LQ = 2
   LR = 1
+  Ext = {}
 SPECIFICATION PathsSpec
 INVARIANT DesignU
 INVARIANT DesignB
